@@ -105,11 +105,7 @@ theorem vm_query {fl : Bool} (prog : List Term) (query : Term) (max : Nat) (hfra
       (g := qHead query') (K := .collect query' max) (env := []) (R := []) (q := query) (nv := B) (n := n)
       hans0 (by decide) (qHead_shape query') ?_ (by simpa using hs)
     refine ⟨1000000, fun v => .var v, (· - 10), _, [], Nat.le_of_eq hnv0.symm,
-      hW2, .collect, .nil, CutsOK.nil _, hq, hgD2, ?_⟩
-    intro it hit
-    simp only [List.mem_singleton] at hit
-    subst hit
-    exact hitem
+      hW2, .collect, .nil, CutsOK.nil _, hq, hgD2, .cons hitem .nil⟩
   rcases tp_all (tmpl := query') (max := max) (prog := prog) (F := F) hprog k _ [] _ sig m' hd hgood 0 [] r1 hspec hok0
       ⟨rfl, by show 0 < 2; omega⟩ hmax with hill | hm
   · exact Or.inl hill
@@ -164,6 +160,19 @@ theorem vm_refines_sld_cut (prog : List Term) (query : Term) (max : Nat)
     `!` and `call(G)`, `G` any term), the side condition `CallsOK` on the goals that are called. -/
 theorem vm_refines_sld_call (prog : List Term) (query : Term) (max : Nat)
     (hfrag : CallFrag prog query) (hmax : 0 < max)
+    (f1 f2 : Nat) (as1 as2 : List Term) (e1 : VM.End) (e2 : SLD.End)
+    (h1 : VM.runQuery f1 prog (Driver.C01.shiftVars 10 query) max = some (as1, e1))
+    (h2 : SLD.solveQuery f2 prog query max = some (as2, e2))
+    (hcalls : CallsOK true f1 prog query max) :
+    Forall2 (AnsRel (Driver.C01.shiftVars 10 query)) as1 as2 ∧ endAgree e1 e2 :=
+  vm_refines_sld_S prog query max hfrag hmax f1 f2 as1 as2 e1 e2 h1 h2 hcalls
+
+/-- **vm_refines_sld_ctl** (stage 3): program and query in `CtlFrag` (Horn clauses with `!` and the
+    control constructs `call(G)`, `(C -> T ; E)`, `(C -> T)` as goals — in clause bodies, in the query
+    and in the goals that are called), the side condition `CallsOK` on the goals that are called.
+    A cut inside `call/1`, inside the condition or a branch of an if-then(-else) is local. -/
+theorem vm_refines_sld_ctl (prog : List Term) (query : Term) (max : Nat)
+    (hfrag : CtlFrag prog query) (hmax : 0 < max)
     (f1 f2 : Nat) (as1 as2 : List Term) (e1 : VM.End) (e2 : SLD.End)
     (h1 : VM.runQuery f1 prog (Driver.C01.shiftVars 10 query) max = some (as1, e1))
     (h2 : SLD.solveQuery f2 prog query max = some (as2, e2))
